@@ -110,8 +110,14 @@ class Hist:
         if kind == "solid_solutions":
             return " CaSrCO3\n -comp Calcite %s\n -comp Strontianite %s\n" % (f(gens.loguni(r, 1e-3, 0.1)), f(gens.loguni(r, 1e-4, 0.01)))
         if kind == "kinetics":
-            return " zero_rate\n -formula %s 1\n -m0 %s\n -parms %s\n -steps %d\n -tol 1e-9\n" % (r.choice(sorted(FORMULA_ELEMS)), f(gens.loguni(r, 1e-3, 1e-2)),
-                                                                                                       f(gens.loguni(r, 1e-9, 1e-7)), TSTEP)
+            fa = r.choice(sorted(FORMULA_ELEMS))
+            t = " zero_rate\n -formula %s 1\n -m0 %s\n -parms %s\n" % (fa, f(gens.loguni(r, 1e-3, 1e-2)), f(gens.loguni(r, 1e-9, 1e-7)))
+            if r.random() < 0.4:
+                # a second kinetic reactant of another composition in the same entry (either may hold the only source of an element)
+                fb = r.choice([x for x in sorted(FORMULA_ELEMS) if x != fa])
+                sec = " first_rate\n -formula %s 1\n -m0 %s\n -parms %s\n" % (fb, f(gens.loguni(r, 1e-3, 1e-2)), f(gens.loguni(r, 1e-7, 1e-5)))
+                t = (sec + t) if r.random() < 0.5 else (t + sec)
+            return t + " -steps %d\n -tol 1e-9\n" % TSTEP
         if kind == "reaction":
             return " %s 1\n %s mmol\n" % (r.choice(sorted(FORMULA_ELEMS)), f(gens.loguni(r, 0.1, 5)))
         if kind == "reaction_temperature":
